@@ -229,6 +229,14 @@ fn c02(quick: bool) -> Vec<Harness> {
     v.push(ops_harness("signal-iterator+single", "C02", cfg, bounds(d(9, 11), d(2, 3), 4)));
 
     let mut cfg = Cfg::base("C02");
+    cfg.preset = vec![Kind::RecvFromPool, Kind::RenameExtract, Kind::OpenExtract];
+    cfg.kinds = vec![];
+    cfg.max_ops = 3;
+    cfg.errors = false;
+    cfg.pool = (2, 8);
+    v.push(ops_harness("pool-recvmsg+extracts", "C02", cfg, bounds(d(9, 11), d(2, 3), 4)));
+
+    let mut cfg = Cfg::base("C02");
     cfg.preset = vec![Kind::SpliceTo, Kind::SendToVectored, Kind::OpenTemp];
     cfg.kinds = vec![];
     cfg.max_ops = 3;
@@ -436,7 +444,7 @@ fn c08(quick: bool) -> Vec<Harness> {
             if quick && psize == 4 && shift != 0 {
                 continue;
             }
-            for preset in [vec![MultishotRead], vec![ReadPool, RecvPool], vec![MultishotRecv, ReadPool]] {
+            for preset in [vec![MultishotRead], vec![ReadPool, RecvPool], vec![MultishotRecv, ReadPool], vec![RecvFromPool, ReadPool]] {
                 if quick && bsize == 1 && preset.len() == 2 && preset[0] == ReadPool {
                     continue;
                 }
@@ -634,6 +642,7 @@ fn c09(quick: bool) -> Vec<Harness> {
         Connect, Bind, LocalAddr, SockOpt, SetSockOpt, Statx, CreateDir, Rename, RemoveFile, Fsync, Truncate, Shutdown,
         Pipe, WaitId, ReadLimited, OpenDirect, SocketDirect, PipeDirect, ToDirect, Listen, PeerAddr, SyncData, FAdvise,
         Allocate, MemAdvise, SpliceTo, SpliceFrom, SendToVectored, OpenTemp, Pollable, ReceiveSignal, ReceiveSignals,
+        RecvFromPool, OpenExtract, CreateDirExtract, RenameExtract, RemoveExtract,
     ];
     for k in kinds {
         let mut cfg = Cfg::base("C09");
@@ -713,7 +722,7 @@ fn c06(quick: bool) -> Vec<Harness> {
     let kinds = [
         ReadVec, WriteVec, ReadVectored2, RecvFrom, SendZc, SendVectoredZc, MultishotRead, MultishotAccept, Statx, Connect, Rename,
         SendToVectored, PeerAddr, SpliceTo, OpenTemp, Pollable, RecvN, SendAllVectored, ReceiveSignal, ReceiveSignals,
-        ReceiveSignalsIntoInner,
+        ReceiveSignalsIntoInner, RecvFromPool, OpenExtract, RenameExtract,
     ];
     for k in kinds {
         let mut cfg = drop_cfg("C06", vec![k]);
@@ -746,7 +755,8 @@ fn c01(quick: bool) -> Vec<Harness> {
         Socket, Connect, Bind, LocalAddr, SockOpt, SetSockOpt, Statx, CreateDir, Rename, RemoveFile, Pipe, ToDirect, WaitId,
         ReadLimited, ReadN, WriteAll, WriteAllVectored, SendAll, Fsync, Truncate, Shutdown, Listen, PeerAddr, SyncData,
         FAdvise, Allocate, MemAdvise, SpliceTo, SpliceFrom, SendToVectored, OpenTemp, RecvN, ReadNVectored,
-        SendAllVectored, Pollable, ReceiveSignal, ReceiveSignals, ReceiveSignalsIntoInner,
+        SendAllVectored, Pollable, ReceiveSignal, ReceiveSignals, ReceiveSignalsIntoInner, RecvFromPool, OpenExtract,
+        CreateDirExtract, RenameExtract, RemoveExtract,
     ];
     for k in kinds {
         let mut cfg = drop_cfg("C01", vec![k]);
